@@ -9,7 +9,7 @@ import base64
 
 from enum import Enum, IntEnum
 
-from hyperframe.exceptions import InvalidPaddingError
+from hyperframe.exceptions import HyperframeError, InvalidPaddingError
 from hyperframe.frame import (
     GoAwayFrame, WindowUpdateFrame, HeadersFrame, DataFrame, PingFrame,
     PushPromiseFrame, SettingsFrame, RstStreamFrame, PriorityFrame,
@@ -543,7 +543,22 @@ class H2Connection:
         )
 
         frame_data = None
-        # Begin by getting the preamble in place.
+        if not self.config.client_side and settings_header:
+            # We have a settings header from the client. This needs to be
+            # applied, but we want to throw away the ACK. We do this by
+            # inserting the data into a Settings frame and then passing it to
+            # the state machine, but ignoring the return value.
+            # This comes first: the value is the peer's, and if it is
+            # malformed we raise before anything is queued for sending.
+            settings_header = base64.urlsafe_b64decode(settings_header)
+            f = SettingsFrame(0)
+            try:
+                f.parse_body(settings_header)
+            except HyperframeError:
+                raise ProtocolError("Invalid HTTP2-Settings header field")
+            self._receive_settings_frame(f)
+
+        # Get the preamble in place.
         self.initiate_connection()
 
         if self.config.client_side:
@@ -553,15 +568,6 @@ class H2Connection:
 
             frame_data = f.serialize_body()
             frame_data = base64.urlsafe_b64encode(frame_data)
-        elif settings_header:
-            # We have a settings header from the client. This needs to be
-            # applied, but we want to throw away the ACK. We do this by
-            # inserting the data into a Settings frame and then passing it to
-            # the state machine, but ignoring the return value.
-            settings_header = base64.urlsafe_b64decode(settings_header)
-            f = SettingsFrame(0)
-            f.parse_body(settings_header)
-            self._receive_settings_frame(f)
 
         # Set up appropriate state. Stream 1 in a half-closed state:
         # half-closed(local) for clients, half-closed(remote) for servers.
